@@ -68,6 +68,7 @@ fn compositions(total: usize, cur: &mut Vec<usize>, out: &mut Vec<Vec<usize>>) {
 }
 
 pub fn run(ctx: &mut Ctx) {
+    super::zuc_state::run(ctx);
     for (n, ok) in rzuc::selftest() {
         ctx.selftest(&n, ok);
     }
